@@ -20,7 +20,7 @@ pub struct Case {
 fn long_program(g: &mut G<'_>, _bin: bool, rows: usize, ncols: usize) -> Program {
     let cols: Vec<ColSpec> = (0..ncols).map(|i| ColSpec { table: "t".into(), name: format!("c{}", i), coltype: T_LONG, flags: 0 }).collect();
     let rows: Vec<RowProg> = (0..rows)
-        .map(|r| RowProg { cells: (0..ncols).map(|c| Val::plain(Base::I32((r * 31 + c) as i32))).collect(), form: if g.coin() { RowForm::WriteRow } else { RowForm::Cols } })
+        .map(|r| RowProg { cells: (0..ncols).map(|c| Val::plain(Base::I32((r * 31 + c) as i32))).collect(), form: if g.coin() { RowForm::WriteRow } else { RowForm::Cols }, offers: vec![] })
         .collect();
     let mut steps = Vec::new();
     if g.chance(1, 3) {
@@ -131,7 +131,7 @@ impl Prop for C05 {
         // a user-defined value type that flushes the writer it is handed (first cell of text rows):
         // nothing is buffered at that point, so the flush must not disturb the numbering
         for seq in [0u8, 9, 254] {
-            let rows: Vec<RowProg> = (0..3).map(|r| RowProg { cells: vec![Val::plain(Base::FlushThenI32(r)), Val::plain(Base::I32(7))], form: RowForm::Cols }).collect();
+            let rows: Vec<RowProg> = (0..3).map(|r| RowProg { cells: vec![Val::plain(Base::FlushThenI32(r)), Val::plain(Base::I32(7))], form: RowForm::Cols, offers: vec![] }).collect();
             let prog = Program { steps: vec![Step::Set { cols: vec![ColSpec::simple("a", T_LONG, 0), ColSpec::simple("b", T_LONG, 0)], rows, end: SetEnd::Finish }] };
             let mut conv = Conversation::new(vec![Cmd::Query { text: Blob::text("flushy") }, Cmd::Ping], vec![Action::Result(prog)]);
             conv.cmds[0].seq = seq;
@@ -145,8 +145,8 @@ impl Prop for C05 {
         };
         for (i, &len) in cells.iter().enumerate() {
             for &seq in &[0u8, 250] {
-                let small = |k: i32| RowProg { cells: vec![Val::plain(Base::I32(k))], form: RowForm::WriteRow };
-                let big = RowProg { cells: vec![Val::plain(Base::BigBytes { seed: i as u32 + 11, len })], form: RowForm::Cols };
+                let small = |k: i32| RowProg { cells: vec![Val::plain(Base::I32(k))], form: RowForm::WriteRow, offers: vec![] };
+                let big = RowProg { cells: vec![Val::plain(Base::BigBytes { seed: i as u32 + 11, len })], form: RowForm::Cols, offers: vec![] };
                 let prog = Program {
                     steps: vec![
                         Step::CompleteOne { rows: 1, id: 1 },
